@@ -503,6 +503,9 @@ class ChirpZTransformExecutor:
             Q = (Q, Q)
 
         dtype = ary.dtype
+        if dtype.kind not in 'fc':
+            # integer and boolean fields: the chirps are floating point
+            dtype = np.dtype(config.precision)
 
         m, n = ary.shape
         M, N = samples_out
